@@ -424,15 +424,19 @@ def run_check(pid, tier):
         os.remove(ctx["harness_bin"])
 
     # extra property-specific dynamic steps (e.g. -race run)
+    extra_cases = []
     for name, fn in cfg.get("extra_steps", []):
         okx, msgx = step(name, fn, ctx, tier, seed)
         if not okx:
             broken.append(name + ": " + (msgx or "")[:300])
+            if cfg.get("extra_is_witness"):
+                extra_cases.append({"op": "%s tier=%s seed=%s" % (name, tier, seed), "impl": (msgx or "")[-1500:],
+                                    "driver": "expected: no data race and every concurrent answer equal to the solo answer", "static": True})
 
     for k, op in {(k["id"], op): (k, op) for k, op in known_hits}.values():
         log("KNOWN-FINDING: property=%s %s (%s)" % (pid, k["desc"], op[:120]))
 
-    static_cases = []
+    static_cases = list(extra_cases)
     if broken and not violations and cfg.get("static_search"):
         try:
             with Lock("lake.lock"):
